@@ -276,6 +276,10 @@ void reduction(vf::Ctx & c)
   pt.twist.linearSpeeds = genVec(c, "vx", "vy", "vz");
   pt.twist.angularSpeeds = genVec(c, "wx", "wy", "wz");
   pt.twist.covariance = genCov<6>(c, ci2);
+  // a mean that is exactly zero still carries its covariance: platform at rest / at the origin of the frame
+  const size_t zeroMean = c.s.pick("zero_mean", {6, 1, 1, 1});
+  if (zeroMean == 1 || zeroMean == 3) {pt.twist.linearSpeeds.setZero(); pt.twist.angularSpeeds.setZero(); c.label("twist-with-zero-mean");}
+  if (zeroMean == 2 || zeroMean == 3) {pt.pose.position.setZero(); pt.pose.orientation.setZero(); c.label("pose-with-zero-mean");}
   c.nontrivial(ci1.rotated || ci2.rotated);
   c.labelIf(ci1.rankDeficient || ci2.rankDeficient, "rank-deficient");
   c.labelIf(ci1.rotated || ci2.rotated, "rotated");
